@@ -217,6 +217,52 @@ def check_case(case, acc):
         shutil.rmtree(work, ignore_errors=True)
 
 
+# ---------------------------------------------------------------------------------------------
+# E2: two collections, a learner that cannot learn (the fallback is taken), >= 2 workers: every schedule of every
+# pool invocation inside brew must return, for each collection, that collection's own best-feature values
+# ---------------------------------------------------------------------------------------------
+def e2_body(case, work):
+    import mokapot
+
+    frames = []
+    for j, off in enumerate(case["offsets"]):
+        df, spec = build(dict(mults=case["mults"], offset=off, enc="pm1", lower=case.get("lower", False)))
+        df["f_key"] = df["f_key"] * (1.0 + 0.5 * j)  # the collections' feature values are pairwise different
+        df["SpecId"] = [f"c{j}_{x}" for x in df["SpecId"]]
+        frames.append((df, spec))
+
+    def body():
+        set_chunks(**DEFAULT_CHUNKS)
+        sub = work / f"e2_{len(list(work.iterdir()))}"
+        sub.mkdir()
+        try:
+            dss = [make_dataset(df, sub / f"in{j}.pin", features=["f_key", "f2"], spectrum=spec) for j, (df, spec) in enumerate(frames)]
+            model = make_model(case["est"], first_only=True, override=False, train_fdr=FDR)
+            psms, models, scores, descs = mokapot.brew(dss, model=model, test_fdr=FDR, folds=3,
+                                                       max_workers=case.get("e2_workers", 2), rng=1)
+            owner = []
+            for sc in scores:  # which collection's best-feature column is this score vector?
+                sc = np.asarray(sc, dtype=float).ravel()
+                owner.append(tuple(j for j, (df, _) in enumerate(frames)
+                                   if len(df) == len(sc) and np.allclose(sc, df["f_key"].values.astype(float), rtol=1e-12, atol=0)))
+            return (tuple(tuple(float(f"{v:.12g}") for v in np.asarray(sc).ravel()) for sc in scores), tuple(bool(d) for d in descs),
+                    tuple(owner))
+        finally:
+            shutil.rmtree(sub, ignore_errors=True)
+
+    return body
+
+
+def e2_explain(out):
+    return f"score vector i carries the best-feature values of collection(s) {list(out[2])} (expected [(0,), (1,), ...]), descs {list(out[1])}"
+
+
+E2_CASES = [
+    {"mults": [1, 2, 1, 1], "offsets": [0, 3], "est": "constant"},
+    {"mults": [2, 1, 3, 1], "offsets": [3, 0, 5], "est": "inverted", "lower": True},
+]
+
+
 def worker(item):
     acc = Acc()
     for case in item:
@@ -249,11 +295,37 @@ def run(ctx):
     items = [cases[i:i + 10] for i in range(0, len(cases), 10)]
     ctx.seed = 0
     ctx.pmap(worker, items)
+    # E2: the fallback with several collections under every schedule of every pool invocation (<= 1 / 2 preemptions)
+    from mc import e2drv
+
+    def bounds(focus, quick=ctx.quick):
+        return (1, "task") if quick else (2, "task")
+
+    infos = e2drv.run_all(ctx, "checks.c07_bestfeat", E2_CASES[: 1 if ctx.quick else 2], bounds)
+    for info in infos:
+        ref = e2_body(dict(info["case"], e2_workers=1), worker_scratch().sub())()
+        if ref[2] != tuple((j,) for j in range(len(info["case"]["offsets"]))):
+            ctx.acc.violation(Violation("fallback-scores-of-other-collection", "sequential run with several collections and a learner "
+                                        f"that cannot learn: {e2_explain(ref)}", {"e2": info["case"], "focus": -1, "schedule": []}))
+    ex = ctx.acc.extra
+    ctx.info["states"] = ex.get("e2_executions", 0)
+    ctx.info["transitions"] = ex.get("e2_transitions", 0)
+    ctx.info["traces_validated_against_impl"] = ex.get("e2_executions", 0)
+    ctx.info["e2"] = infos
     ctx.exhaustive = True
-    ctx.info["bound"] = {"datasets": len(mvs) * len(offsets), "cases": len(cases)}
+    ctx.info["bound"] = {"datasets": len(mvs) * len(offsets), "cases": len(cases), "e2_preemption_bound": 1 if ctx.quick else 2}
 
 
 def replay(case):
     acc = Acc()
+    if "e2" in case:
+        from mc import e2drv
+
+        differs, reproducible, exc = e2drv.replay("checks.c07_bestfeat", case)
+        if not reproducible:
+            acc.violation(Violation("harness-nondeterministic-replay", "same schedule, different observations", case))
+        elif differs:
+            acc.violation(Violation("schedule-changes-result", "replayed schedule differs from sequential", case))
+        return acc.violations
     check_case(case, acc)
     return acc.violations
